@@ -65,6 +65,16 @@ PROPS["C17"] = {
     "assumptions": ["rows are observed through a ghost counter and ghost assertions at the print statement, not through the file"],
 }
 
+PROPS["C20"] = {
+    "level": "other",
+    "text": "Proof that each add_match increments exactly one histogram cell [removed length][errors] on the correct end (5'/3' split "
+            "for anywhere and linked adapters), exactly one adjacent-base bucket for 3' matches, and nothing else; proof that every "
+            "registration site calls add_match once per recorded match.  The 'allowed errors' ranges are checked by a bounded "
+            "exhaustive stand-in (float arithmetic).",
+    "note": "Trusted: dict/defaultdict semantics.  Bounded: ErrorRanges over all lengths <= 60 and rates k/100.",
+    "assumptions": ["ErrorRanges: Python float arithmetic is exercised natively, not modelled"],
+}
+
 _PENDING = "check not built yet in this revision (see DESIGN.md section 7 for the build order)"
 NOT_APPLICABLE = {
     "C12": "quantifies over fault sequences, crash points and schedules and contains a liveness clause; malformed-input detection "
